@@ -79,6 +79,11 @@ CHECKS = {
    text="(a) every node of every ExprBuilder program carries the model typing (shape/dtype, cross-checked against ArraySem inside TLC by the ShapeSound/IxSound invariants); the real node must announce the same ndim/shape/dtype, evaluate to exactly that, and evaluate given only the arguments it announces. (b) IntBounds.tla states soundness of the interval transfer functions per constructor and is checked exhaustively by TLC (spec mutant: naive Inflate rule violates); every integer node of the real code is evaluated at all loop iterations and must lie in its _intbounds.",
    note="Only soundness of ranges is demanded, never tightness; function.Array level metadata is left to C07.",
    technique="TLA+ typing rules + TLA+ interval-soundness spec (TLC exhaustive) + replay of generated programs node by node"),
+ 'C12': dict(
+   category='model_checking',
+   text="Five TLA+ design models checked by TLC. Basis/BasisSpline/BasisMachine model 1-D B-spline structure twice (from the knot-vector definition and as a transcription of topology.py's index arithmetic; invariants SplImplRefines, dimension formula, p+1 functions per element, continuity C^(p-m) from multiplicity or the continuity argument) with tensor products, discont/Legendre, removedofs, Mask, Prune and Part as actions (InverseMaps, NoDeadDof, InvUnit and the action property StepProp in every state); MergeIndex models util.merge_index_map as the code's pointer machine (Downwards, RootsAreReps, result = equivalence-class numbering); BasisNodal covers every small simplex mesh with std/lagrange/bernstein/bubble/discont as lattice-node gluing; BasisHier classical and truncated hierarchical bases on every small dyadic refinement incl. periodic; BasisMulti multipatch splines glued along shared sides. S->C: every emitted state carries the predicted structure (ndofs, per-element dof lists, supports, interface continuity orders, partition-of-unity elements); the same basis is built through the public nutils API and get_dofs/get_support/ndofs compared exactly (up to renumbering for C0 simplex bases), then the numeric clauses are checked as the model predicts them: sample.eval(basis) equals get_coefficients scattered to get_dofs, the non-zero set equals the dof list, the sum is one where predicted, jumps of all derivatives up to the promised order vanish on every interface, alternative public routes to the same basis agree. T: the dof tables of every replayed basis and of Mask/Prune/Part children are loaded by TLC and judged for InverseMaps and MaskOp/PruneOp/PartOp.",
+   note="Basis function values are compared with the basis' own coefficient tables, partition of unity and continuity at Gauss points; truncated hierarchical bases: ndofs, bounds of each per-element dof set, partition of unity, continuity and InverseMaps, not the exact truncated supports; uniform knot values, identity geometry; trimmed topologies as whole-element subsets; multipatch only axis-aligned consistently oriented layouts; 'not smoother than advertised' is not demanded; quick replay coverage (never the verdict) is clock limited.",
+   technique="TLA+ models of spline / nodal / hierarchical / multipatch basis structure and of merge_index_map checked by TLC; predicted structures replayed on real bases; exported dof tables validated by TLC"),
  'C14': dict(
    category='model_checking',
    text="Solver.tla models System.solve and the Newton/ReuseNewton/LinesearchNewton/Arnoldi/direct protocols and Matrix._solver with residual norms abstracted to IEEE-comparison classes, StepRetry.tla the bisection retry tree of System.step, LinSolve.tla the constrained linear solve in exact rational arithmetic; TLC checks Certified/NoSilent/Tiling/ConsExact/IndepOfGuess; all model behaviours are replayed on the real System.solve/step/Matrix.solve (S->C) and recorded real nonlinear solves are validated by TraceSolver.tla (C->S).",
